@@ -6,6 +6,7 @@
    modifier the code deliberately leaves other mappings' outputs alone (C05). *)
 From TM Require ModifierSpec SpecTables.
 From TMGen Require Modifiers.
+From TM Require MonitorsSilent.
 From TM Require Import Base Mapper Monitors Trace MapperInv MapperProps MapperNoAbs MapperStale.
 
 (* For EVERY accepted layout without absorbing mappings, EVERY history h (so:
@@ -36,6 +37,40 @@ Proof.
   intros a L h k m t H1 H2. apply no_stale_modifiers; [apply for_layout_ok_wf; exact H1 | apply has_absorbing_noabs; exact H2].
 Qed.
 Print Assumptions C04_no_stale_modifiers.
+
+(* The extracted step checker Monitors.check_step (applied by the mapper engine
+   to the outputs of the REAL mapper on every explored transition: specification
+   state before and after, keys physically held and keys held on the virtual
+   keyboard before the step, the input, the observed events) states the theorem
+   above on one observed press of a key that is not physically held, in a layout
+   without absorbing mappings (the class of this property; it evaluates these
+   clauses under `has_absorbing L = false` only), when the spec_choice m is
+   key-producing: it folds the observed events up to and including the first
+   press of the final output key of m over the keys held before the step
+   (at_press); K_C04_missing: an output key of m that is a modifier is not in
+   at_press; K_C04_stale: a modifier in at_press is not an output key of m and
+   not c04_ok_other (when that press is missing altogether the hit is
+   K_C03_fire); reported as C04.missing, C04.stale.  It never fires on the model:
+   for EVERY classification, EVERY accepted layout, EVERY history h and EVERY next
+   input i, applied to the model's own events for i it returns no clause at all,
+   in particular neither of these two.  Runs on which these clauses fire:
+   MonitorsSilent.check_step_fires, MonitorsSilent.check_step_fires_every_clause. *)
+Theorem C04_checkers_silent_on_model :
+  forall (is_action : key -> bool) (L : layout) (h : list input) (i : input),
+    for_layout_ok L = true ->
+    let chk := check_step is_action L (state_of is_action L h) (state_of is_action L (h ++ [i]))
+                 (phys_of h) (held_all is_action L h) i
+                 (fst (fst (mstep is_action L (state_of is_action L h) i))) in
+    chk = [] /\ ~ In K_C04_missing chk /\ ~ In K_C04_stale chk.
+Proof.
+  intros a L h i H. cbn zeta.
+  assert (Hwf : wf_layout L) by (apply for_layout_ok_wf; exact H).
+  repeat split.
+  - apply MonitorsSilent.check_step_silent. exact Hwf.
+  - apply MonitorsSilent.check_step_clause_silent. exact Hwf.
+  - apply MonitorsSilent.check_step_clause_silent. exact Hwf.
+Qed.
+Print Assumptions C04_checkers_silent_on_model.
 
 (* "Modifier" in this property means one of the eight standard modifiers
    (SpecTables.spec_modifier_keys: left/right Shift, Ctrl, Alt, Meta): the
